@@ -425,7 +425,6 @@ JUNK = 'not-a-state-of-K'
 
 def execute(plan):
     core.assert_repo_import()
-    sys.setrecursionlimit(20000)
     prop = plan['prop']
     pool = Pool(plan)
     snap0 = pool.snapshot()
